@@ -359,16 +359,23 @@ func runCheck(propID, repo, verif, tier string, verbose bool) int {
 		res := runBounded(repo, verif, propID, b.Pkg, b.Test, b.File, tier, seed)
 		ev := map[string]interface{}{"name": b.Name, "bound": b.Bound, "stands_in_for": b.StandsIn, "label": "bounded", "result": res.Status, "cases": res.Cases, "seconds": round3(res.Seconds)}
 		boundedEv = append(boundedEv, ev)
-		if res.Status == "fail" {
+		if res.Status == "fail" || res.Status == "fail-complete" {
 			name := "bounded:" + b.Name
-			failName := name
-			if res.FailID != "" {
-				failName = name + ":" + res.FailID
+			unknown := 0
+			for _, fl := range res.Fails {
+				failName := name + ":" + fl[0]
+				if kf := isKnown(failName); kf != nil {
+					knownHit = append(knownHit, kf.Text)
+				} else {
+					unknown++
+					viols = append(viols, violation{Obl: &Obligation{Name: failName, Kind: "bounded", Text: b.StandsIn, Output: res.Output, Func: b.Name}, Reason: "bounded check failed: " + trunc(fl[1], 300), Input: true})
+				}
 			}
-			if kf := isKnown(failName); kf != nil {
-				knownHit = append(knownHit, kf.Text)
-			} else {
-				viols = append(viols, violation{Obl: &Obligation{Name: failName, Kind: "bounded", Text: b.StandsIn, Output: res.Output, Func: b.Name}, Reason: "bounded check failed: " + trunc(res.FailMsg, 300), Input: true})
+			if unknown == 0 && res.Status == "fail-complete" {
+				// only recorded findings failed and the harness explored everything else
+				ev["result"] = "pass-with-known-findings"
+			} else if unknown == 0 {
+				viols = append(viols, violation{Obl: &Obligation{Name: name, Kind: "bounded", Text: b.StandsIn, Output: res.Output, Func: b.Name}, Reason: "bounded check stopped at a recorded finding before exploring its bound: " + trunc(res.FailMsg, 200)})
 			}
 		} else if res.Status != "pass" {
 			viols = append(viols, violation{Obl: &Obligation{Name: "bounded:" + b.Name, Kind: "bounded", Text: b.StandsIn, Output: res.Output, Func: b.Name}, Reason: "bounded check could not run: " + trunc(res.Output, 300)})
